@@ -207,7 +207,20 @@ pub fn run_sign(scn: &Scenario, ctx: &mut Ctx) {
                             s.garbage = true; // an unparsable signature object makes verification report an error for everyone
                         } else if (sch == keys::SIG_SSH_P256 || sch == keys::SIG_SSH_P384) && meta {
                             // the outer signature (over the wrapped metadata) may hit the same defect; not attributable here
-                            if !matches!(guarded(|| s.env.has_signature_from(&keys::signing(sch, id).1)), Ok(Ok(true))) {
+                            // (judged on a delivered copy: the mis-encoded signature only fails once it is parsed back)
+                            let delivered = transmit(ctx, &s.env);
+                            let unparsable = delivered.as_ref().map(|d| {
+                                d.objects_for_predicate(known_values::SIGNED).iter().any(|o| {
+                                    if o.subject().is_wrapped() {
+                                        let outer_bad = o.object_for_predicate(known_values::SIGNED).map(|x| !x.is_obscured() && x.extract_subject::<Signature>().is_err()).unwrap_or(false);
+                                        let inner_bad = o.subject().unwrap_envelope().map(|x| x.extract_subject::<Signature>().is_err()).unwrap_or(false);
+                                        outer_bad || inner_bad
+                                    } else {
+                                        false
+                                    }
+                                })
+                            }).unwrap_or(true);
+                            if unparsable || !matches!(delivered.map(|d| guarded(|| d.has_signature_from(&keys::signing(sch, id).1))), Some(Ok(Ok(true)))) {
                                 s.unknown.insert((sch, id));
                                 s.garbage = true;
                             }
